@@ -9,6 +9,7 @@ ops:  {"op": "new"}                                    construct solver from pro
       {"op": "solve", "k"}
       {"op": "wait"}                                   wait_until_finished()
       {"op": "list", "dir"}                            directory listing
+      {"op": "copy", "src", "dst"}                     copy a checkpoint directory (a backup)
 Events go to $MDPAX_VERIF_TRACE through mdpax.utils._verif (same sequence numbers, same kill
 switch), so a kill can hit between any two of them.
 """
@@ -83,6 +84,7 @@ def main():
     kind = spec["kind"]
     cls = solver_class(kind)
     solver = None
+    shared_cfg = None
     created = []
     for op in spec["ops"]:
         if solver is not None and solver not in created:
@@ -96,12 +98,29 @@ def main():
                 other = make_problem(op["config_with_other_problem"])
                 cfg = cls.Config(problem=other.config, **spec["solver_kw"])
                 solver = cls(problem=problem, config=cfg)
+            elif op.get("via_config"):
+                # the configuration-object route; "reuse": the SAME configuration object as for the previous solver of
+                # this process, with some fields edited (a parameter sweep)
+                kw = dict(spec["solver_kw"])
+                if op["via_config"] == "reuse" and shared_cfg is not None:
+                    cfg = shared_cfg
+                    for k_, v_ in (op.get("kw") or {}).items():
+                        setattr(cfg, k_, v_)
+                else:
+                    kw.update(op.get("kw") or {})
+                    cfg = cls.Config(problem=problem.config, **kw)
+                shared_cfg = cfg
+                solver = cls(problem=problem, config=cfg)
             else:
                 kw = dict(spec["solver_kw"])
                 kw.update(op.get("kw") or {})
                 solver = cls(problem, **kw)
             _verif.emit("x_new", solver=solver, config=config_text(solver),
-                        ckpt_enabled=bool(solver.is_checkpointing_enabled))
+                        ckpt_enabled=bool(solver.is_checkpointing_enabled),
+                        ckpt_dir=str(getattr(solver, "checkpoint_dir", "") or ""))
+        elif name == "sleep":
+            import time
+            time.sleep(float(op["s"]))
         elif name == "restore":
             kw = {}
             if op.get("step") is not None:
@@ -144,6 +163,20 @@ def main():
                 _verif.emit("x_restore_failed", exc=type(ex).__name__, msg=str(ex)[:300],
                             req=op.get("step"))
                 solver = None
+        elif name == "load_same":
+            # load_checkpoint() on the solver object that is already in use (e.g. roll back to an earlier step)
+            if solver is None:
+                continue
+            try:
+                solver.load_checkpoint(op["dir"], step=op.get("step"))
+                _verif.emit("x_restore_ok", solver=solver, config="", req=op.get("step"),
+                            freq=int(solver.checkpoint_frequency), maxkeep=int(solver.max_checkpoints),
+                            is_async=bool(solver.enable_async_checkpointing),
+                            ckpt_dir=str(getattr(solver, "checkpoint_dir", "")),
+                            ckpt_enabled=bool(solver.is_checkpointing_enabled),
+                            dtype=str(np.asarray(solver.values).dtype))
+            except Exception as ex:
+                _verif.emit("x_restore_failed", exc=type(ex).__name__, msg=str(ex)[:300], req=op.get("step"))
         elif name == "solve":
             if solver is None:
                 continue
@@ -165,8 +198,16 @@ def main():
                     except Exception as ex:
                         _verif.emit("x_solve_failed", exc=type(ex).__name__, msg="wait_until_finished: " + str(ex)[:200])
             _verif.emit("x_waited")
+        elif name == "copy":
+            # a backup of the directory taken at rest (the caller waits first)
+            import shutil
+            shutil.copytree(op["src"], op["dst"])
+            _verif.emit("x_copy", src=op["src"], dst=op["dst"])
         elif name == "list":
-            _verif.emit("x_listing", dir=op["dir"], **listing(op["dir"]))
+            d = op["dir"]
+            if d == "@SOLVER":
+                d = str(getattr(solver, "checkpoint_dir", "") or "")
+            _verif.emit("x_listing", dir=d, **listing(d))
     _verif.emit("x_exit")
 
 
